@@ -201,6 +201,21 @@ impl CaseEngine for C07 {
     fn alloc_cap(&self) -> usize {
         64 << 20
     }
+    fn hang_cpu_seconds(&self) -> f64 {
+        // a progress line is emitted per mutant and variant; a mutant takes milliseconds of CPU
+        30.0
+    }
+    fn hang_signature(&self, _progress: &str, frames: &[String]) -> Option<String> {
+        // "opening ... either succeeds or returns an error": a process stuck while *opening* refutes it; stuck while
+        // reading an opened database does not (for reads the property excludes panics only)
+        if frames.is_empty() || frames.iter().any(|f| f.contains("vcore::dump::")) {
+            return None;
+        }
+        let f = frames.iter().find(|f| f.contains("agdb::"))?;
+        // drop generic parameters and closures: stable across builds
+        let f = f.split('<').next().unwrap_or(f).trim_end_matches("::").to_string();
+        Some(format!("open_does_not_return:{f}"))
+    }
     fn case_timeout_s(&self, _args: &Args) -> u64 {
         // "no progress line for N seconds": progress is emitted per mutant and variant, a mutant takes milliseconds
         15
@@ -246,20 +261,38 @@ impl CaseEngine for C07 {
             {
                 let p = crash::write_images(&mdir, "m.agdb", &m);
                 progress(&format!("{dop}+{wop} variant=prescreen mutant={i}"));
+                // (spins while opening, spins while reading, in-repo function issuing the storage calls)
                 let spins = panicmon::catch(|| {
                     let ctl = vcore::wrap::Ctl::new();
                     ctl.budget.store(2_000_000, std::sync::atomic::Ordering::Relaxed);
+                    let mut in_open = false;
                     if let Ok(f) = <agdb::FileStorage as agdb::StorageData>::new(&p) {
-                        if let Ok(db) = agdb::DbImpl::with_data(vcore::wrap::MonStorage::wrap(f, ctl.clone())) {
+                        let db = agdb::DbImpl::with_data(vcore::wrap::MonStorage::wrap(f, ctl.clone()));
+                        in_open = ctl.budget_hit.load(std::sync::atomic::Ordering::Relaxed) > 0;
+                        if let Ok(db) = db {
                             let _ = dump::dump(&db, &probe());
                         }
                     }
-                    ctl.budget_hit.load(std::sync::atomic::Ordering::Relaxed) > 0
+                    let frame = ctl.budget_hit_frame.lock().ok().and_then(|f| f.clone()).unwrap_or_default();
+                    (in_open, ctl.budget_hit.load(std::sync::atomic::Ordering::Relaxed) > 0, frame)
                 });
                 vcore::alloccap::REFUSED.store(0, std::sync::atomic::Ordering::SeqCst);
-                if let Ok(true) = spins {
+                if let Ok((in_open, true, frame)) = &spins {
                     rep.count("mutants_skipped_step_budget_exceeded");
-                    rep.inconclusive(&format!("mutant {dop}+{wop} of case {case} exceeds the step budget when read (termination is C19's subject)"));
+                    if *in_open {
+                        // "opening ... either succeeds or returns an error": 2 million storage calls for a file of a few KiB is neither
+                        let sig = format!("C07:open_exceeds_the_step_budget:{frame}");
+                        if fired.insert(sig.clone()) {
+                            rep.violation(
+                                &sig,
+                                &format!("{dop}+{wop}: opening a damaged file of {} bytes issued more than 2,000,000 storage calls without returning (loop in {frame})", m.data.len()),
+                                json!({"engine":"c07","case":case,"seed":args.u64("seed",1),"tier":args.str("tier","quick"),"variant":"prescreen",
+                                       "data_operator":dop,"wal_operator":wop,"data_hex":hex(&m.data),"wal_hex":hex(&m.wal)}),
+                            );
+                        }
+                    } else {
+                        rep.inconclusive(&format!("mutant {dop}+{wop} of case {case} exceeds the step budget when read, in {frame} (the property only excludes panics for reads; termination of queries is C19's subject)"));
+                    }
                     continue;
                 }
             }
